@@ -116,7 +116,7 @@ struct Setup {
 
 fn setup<M: ZooMsg + ?Sized>(dec: &mut Decider, stats: &mut Stats) -> Result<Setup, String> {
     let p = dec.weighted(St::Cfg, &[3, 2, 1]);
-    let mut plan = make_plan::<M>(dec, stats, NSpec::Exactly(p as u32 + 2), 2);
+    let mut plan = make_plan_opt::<M>(dec, stats, NSpec::Exactly(p as u32 + 2), 2, false);
     plan.retain_p = 0;
     let plan = Arc::new(plan);
     if let Some((val, _)) = plan.anomalies.first() {
@@ -452,6 +452,9 @@ pub fn run_receiver_only<M: ZooMsg + ?Sized>(
     let is_async = sc.world == WorldKind::Async;
     let mut knobs = draw_knobs(if is_async { "C08" } else { "C07" }, sc.world, &mut dec, &plan);
     knobs.pipe_cap = stream.len() + 1;
+    if plan.bmode == 2 && knobs.rchunk_mode == 1 {
+        knobs.rchunk_mode = 2;
+    }
     if prop == "C10" {
         // every prefix length should be validated often: over-weight 1-byte reads
         if dec.chance(St::Cfg, 1, 3) {
